@@ -286,3 +286,25 @@ def c09_4(cx):
             cx.check(not k.reaches(h, s), "the shift happens before slot 0 is overwritten", s, key="shift-before-head")
     cx.some_calls(k, r"^std::iter::Iterator::rev$", 1, "shift iterates from the tail")
     cx.some_calls(k, LOCK, 1, "record_cold serialises writers")
+
+
+@ob("C01.1i", ["C01", "C07", "C09"], "a query that obtained a reusable interned id without recording the read keeps that id after the slot was reclaimed for another value", kind="MUSTCALL")
+def c01_1i(cx):
+    """intern_id records the read on every return path: report_tracked_read_if_reusable is called (directly, or through intern_id_cold which must-call it) on every path; the helper reports a full tracked read (key, durability, revision) iff the value is reusable and otherwise still folds the revision into the stamp; the revision reported is the current one."""
+    b = cx.fn(IN + r"intern_id$")
+    cx.must_call(b, r"^interned::report_tracked_read_if_reusable$", "every return path of intern_id records the read (fast, reuse and cold paths)")
+    cold = cx.fn(IN + r"intern_id_cold$")
+    cx.must_call(cold, r"^interned::report_tracked_read_if_reusable$", "the cold path records the read")
+    for body in (b, cold):
+        for c in cx.some_calls(body, r"^interned::report_tracked_read_if_reusable$", 1, "report call"):
+            a = cx.args(c)
+            cx.flow(body, a[2], [r"^zalsa::Zalsa::current_revision\(\$[23]\)$"], [r"^const:", r"Revision::start", r"last_interned_at"], "interned reads are stamped with the current revision", c)
+            cx.flow(body, a[1], [r"^interned::IngredientImpl::<C>::database_key_index\(\$1, "], [], "the key recorded names this ingredient", c)
+    h = cx.fn(r"^interned::report_tracked_read_if_reusable$")
+    full = cx.one_call(h, r"ZalsaLocal::report_tracked_read_simple$", "full read report")
+    rev = cx.one_call(h, r"ZalsaLocal::report_tracked_read_revision$", "revision-only report")
+    cx.skipped_only_if(h, full, CallIs(r"^interned::is_reusable$", False), "the dependency edge is omitted only for non-reusable values")
+    cx.must_call(h, r"ZalsaLocal::report_tracked_read_(simple|revision)$", "the revision is folded into the stamp on every path")
+    a = cx.args(full)
+    cx.check(a[1] == "$2" and a[2] == "$4" and a[3] == "$3", "the full report forwards (index, durability, current_revision)", full, {"args": a}, key="forward-full")
+    cx.flow(h, cx.arg(rev, 1), [r"^\$3$"], [], "the revision-only report forwards current_revision", rev)
